@@ -103,16 +103,29 @@ The output format is the same than input format.
 			} else if maskpos != "" {
 				var positions []string
 				var p string
+				var i int
 				var posint int64
 				positions = strings.Split(maskpos, ",")
-				for _, p = range positions {
+				// All positions are first converted to alignment coordinates, on the
+				// input alignment: masking may change the gaps of the reference sequence
+				starts := make([]int, len(positions))
+				lengths := make([]int, len(positions))
+				for i, p = range positions {
 					if posint, err = strconv.ParseInt(p, 10, 32); err != nil {
 						io.LogError(err)
 						return
 					}
-					start := int(posint)
-					length := 1
-					if err = mask(al, start, length, refseq, maskrefseq, maskreplace, masknogap, masknoref); err != nil {
+					starts[i] = int(posint)
+					lengths[i] = 1
+					if refseq {
+						if starts[i], lengths[i], err = al.RefCoordinates(maskrefseq, starts[i], lengths[i]); err != nil {
+							io.LogError(err)
+							return
+						}
+					}
+				}
+				for i = range starts {
+					if err = mask(al, starts[i], lengths[i], false, maskrefseq, maskreplace, masknogap, masknoref); err != nil {
 						io.LogError(err)
 						return
 					}
